@@ -9,12 +9,17 @@ package main
 // absent: I/O errors are outside the properties).
 //@ func sendMessages
 //@   requires reply != nil && replyOK(reply)
-//@   modifies outputstream.OutputStream.lastseen[o], outputstream.OutputStream.batch[o], maptype(map[uint64]*outputstream.messageBatch)
+//@   requires stream: o != nil ==> wfOS(o)
+//@   requires stream-last: o != nil ==> wfLast(o)
+//@   ensures stream: o != nil ==> wfOS(o) && wfLast(o)
+//@   modifies outputstream.OutputStream.lastseen[o], outputstream.OutputStream.batch[o], maptype(map[uint64]*outputstream.messageBatch), leveldb.DB.seq[o.db]
 
 // Applying one committed entry. wf* is the representation invariant of
 // internal/ircserver; it holds between entries.
 //@ func FSM.applyRobustMessage
 //@   requires state: fsm != nil && msg != nil && wfMid(i) && wfAuth(i) && wfLogin(i) && wfAlive(i) && wfPrefix(i)
+//@   requires stream: o != nil ==> wfOS(o) && wfLast(o)
+//@   ensures stream: o != nil ==> wfOS(o) && wfLast(o)
 //@   requires gate-session: (msg.Type == robust.IRCFromClient || msg.Type == robust.DeleteSession) ==> msg.Session.Reply == 0
 //@   requires gate-create: msg.Type == robust.CreateSession ==> len(msg.Data) >= 8 && msg.Id.Reply == 0 && (forall x robust.Id :: x in i.sessions ==> x.Id < msg.Id.Id)
 //@   ensures base: wfBase(i)
